@@ -17,6 +17,7 @@
   theorems show the reply does not depend on it).
 -/
 import PacketVerif.Model.Dhcp4Frame
+import PacketVerif.Model.Encode
 namespace PV.Model.Dhcp4Frame
 open PV PV.Model PV.Model.Dhcp4Srv PV.Model.Dhcp4Opt
 
@@ -45,5 +46,25 @@ def replyBytes (p spare : Bytes) (prl : Option Bytes) (r : Reply) (tail : List U
     iteration order per reply) -/
 def replyFrames (p spare : Bytes) (o : Opts) (rs : List Reply) (tails : List (List UInt8)) : List (Outcome Bytes) :=
   (rs.zip tails).map (fun rt => replyBytes p spare (optGet o 55) rt.1 rt.2)
+
+/-! ### the frame around the reply: `sendDHCP4Packet` as `ProcessPacket` calls it
+
+      if frame.SrcAddr.IP == IPv4zero || dhcpFrame.Broadcast()     -- Broadcast() is read AFTER the buffer was rewritten
+          dst = {EthBroadcast, 255.255.255.255, 68}                 -- (flags cleared): only the zero source selects it
+      else dst = {frame.SrcAddr.MAC, frame.SrcAddr.IP, 68}
+      src = {NICInfo.HostAddr4.MAC, NICInfo.HostAddr4.IP, 67}
+      sendDHCP4Packet(conn, src, dst, response)                     -- `Model.Encode.sendUDP4`, TTL 50 -/
+
+def ethBroadcast : Bytes := [0xff, 0xff, 0xff, 0xff, 0xff, 0xff]
+
+/-- destination (MAC, IPv4 address) of a reply to a request whose frame had Ethernet source `srcMAC` -/
+def replyDest (srcMAC : Bytes) (rx : Rx) (r : Reply) : Bytes × Bytes :=
+  if r.bcast then (ethBroadcast, [255, 255, 255, 255]) else (srcMAC, ip4Bytes rx.srcIP)
+
+/-- **the frame written for a reply**: `msg` (the encoded DHCP message) in UDP 67 → 68 / IPv4 / Ethernet from the host's
+    NIC (`hostMAC`, `hostIP`), built in a pool buffer `g` -/
+def replyFrame (g : Mem) (hostMAC : Bytes) (hostIP : IP) (srcMAC : Bytes) (rx : Rx) (r : Reply) (msg : Bytes) :
+    Outcome Bytes :=
+  sendUDP4 g hostMAC (replyDest srcMAC rx r).1 50 (ip4Bytes hostIP) (replyDest srcMAC rx r).2 67 68 msg
 
 end PV.Model.Dhcp4Frame
